@@ -164,6 +164,23 @@ func candidate(values []uint64, k int, base int) *Scenario {
 	}
 }
 
+// second scripted case: validator 3 of 4, round 1 proposal re-proposes value 11 with valid round 0; the last
+// round-0 prevote arrives late, the validator prevotes, precommits (its precommit completes the quorum) but
+// the loop only looks at the proposal of round 0; a stale propose timeout then triggers the commit.
+func staleTimeoutCase() *Scenario {
+	pv := func(h uint64, r, from int, id int64) In { return In{K: "pv", H: h, R: r, From: from, ID: id} }
+	pc := func(h uint64, r, from int, id int64) In { return In{K: "pc", H: h, R: r, From: from, ID: id} }
+	return &Scenario{
+		Case: Case{Self: 3, H0: 1, Values: []uint64{7}, Blocks: []Block{{Total: 4, Pows: []uint64{1, 1, 1, 1}, Props: []int{0, 1, 2, 3}}}},
+		Lives: []Life{{H: 1, Base: 0, CrashAt: -1, Ins: []In{
+			{K: "to", Step: 0, H: 1, R: 0}, pv(1, 0, 0, 11), pv(1, 0, 1, 11),
+			pc(1, 0, 0, -1), pc(1, 0, 1, -1), pc(1, 0, 2, -1), {K: "to", Step: 2, H: 1, R: 0},
+			{K: "prop", H: 1, R: 1, From: 1, VR: 0, Val: 11}, pv(1, 1, 0, 11), pv(1, 1, 1, 11),
+			pc(1, 1, 0, 11), pc(1, 1, 1, 11), pv(1, 0, 2, 11), {K: "to", Step: 0, H: 1, R: 1}}}},
+		Note: "the last input is a stale propose timeout of round 1; it is not logged, yet its call runs the commit callback",
+	}
+}
+
 func main() {
 	c := hx.NewCtx("C13")
 	scratch = hx.TempDir("c13")
@@ -185,6 +202,8 @@ func main() {
 		x.runFixed(candidate([]uint64{7, 8}, k, 1))
 		c.Hist["scripted:proposer-candidate"]++
 	}
+	x.runFixed(staleTimeoutCase())
+	c.Hist["scripted:stale-timeout"]++
 	nScen, maxPoints := 260, 24
 	if c.Thorough() {
 		nScen, maxPoints = 4000, 90
